@@ -49,6 +49,7 @@ PROFILES = {
     "fn1": prof("MC_Fn", "MovesFn", 1, srcs=[9], allow_undef=True),
     "str1": prof("MC_Fn", "MovesStr", 1, srcs=[10], allow_undef=True),
     "cast1": prof("MC_Fn", "MovesCast", 1, srcs=[11], allow_undef=True),
+    "tall2": prof("MC_Focus", "MovesTall", 2, srcs=[12]),
     "ty2": prof("MC_Focus", "MovesTy", 2, srcs=[1, 8, 4]),
     "err2": prof("MC_Focus", "MovesErr", 2, srcs=[1, 4]),
     "err3": prof("MC_Focus", "MovesErr", 3, srcs=[1]),
@@ -66,9 +67,9 @@ CHECKS = {
         level="model_checking",
         clauses=CROSS | {"accept", "export-error"},
         phases=dict(quick=[dict(profile="core2"), dict(profile="agg3"), dict(profile="wins3"), dict(profile="win2"),
-                           dict(profile="join2"), dict(profile="joins3"), dict(profile="union2")],
+                           dict(profile="join2"), dict(profile="joins3"), dict(profile="union2"), dict(profile="tall2")],
                     thorough=[dict(profile="core3"), dict(profile="agg3"), dict(profile="win3"), dict(profile="wins4"),
-                              dict(profile="join3"), dict(profile="joins4"), dict(profile="union3")]),
+                              dict(profile="join3"), dict(profile="joins4"), dict(profile="union3"), dict(profile="tall2")]),
     ),
     "C06": dict(
         level="model_checking",
